@@ -50,7 +50,7 @@ T = {
     "C16": ("other", "byte comparison of the four routes' output (library, CLI, Compile::file, Compile::directory) across fresh processes, accepted by the Routes.tla trace specification (one inferred function F); peginate! compared behaviourally",
             "Decided by byte identity, as the design says honestly: every observation (route, grammar, settings, process, digest of the code after the route's framing) is validated by TLC against Routes.tla, which infers F from the first observation and rejects any later disagreement or wrong framing; the macro route is compiled next to the library route in the harness and the full outcomes compared on all inputs.", "thin specification: TLA+ contributes the composition rule only; macro expansion is compared by behaviour and Debug shape, not token by token", "4 C16"),
     "C20": (MC, "TLC over all interleavings of the Session model (per-call state; per-thread and shared caches refuted) + concurrent real parses vs sequential run (one reused input buffer per thread, every parse also judged against the history-free specification, a panicking and a re-entrant user function among the cases) + CacheMonitor on per-thread traces",
-            "The architectural claim (all parse state lives in the call) is an explicit model whose interleavings TLC enumerates, together with the two designs a refactoring could slip into, which TLC must refute; on the real code the full outcome (result, tracer callbacks, cursor advances) of every case parsed from many threads in different orders must equal the sequential outcome, and each thread's cache hits are validated against CacheMonitor.", "real thread schedules are sampled, not enumerated (loom / shuttle are outside this technique family)", "4 C20"),
+            "The architectural claim (all parse state lives in the call) is an explicit model whose interleavings TLC enumerates, together with the two designs a refactoring could slip into, which TLC must refute; on the real code the full outcome (result, tracer callbacks, cursor advances) of every case parsed from many threads in different orders must equal the sequential outcome, and each thread's cache hits are validated against CacheMonitor.", "real thread schedules are sampled, not enumerated (loom / shuttle are outside this technique family); SessionPure / FreshCache of the per-call design are also proved for any number of threads and calls with TLAPS (spec/proofs/SessionProofs.tla, thorough tier)", "4 C20"),
 }
 
 
